@@ -14,6 +14,8 @@ _NUM = re.compile(rb"[+-]?(?:\d+\.?\d*|\.\d+)(?:[eE][+-]?\d+)?")
 NUMERIC_TEXTS = [b"1 ,2", b"4,1 :5", b"1:2\t,3", b"1,2 ", b" 1", b"1, 2", b"1: 2", b"1", b"1,2", b"1:3", b"1,2:4,5", b"+1,-2.5e-3:+.5E+2", b".5,1", b"1,.5", b"-1.5,2e+3", b"1,,2", b",1", b"1,", b"1 2", b"1:2:3", b"1:", b":1", b"1,+-2,3", b"--5:7", b"-1.5,2e+-3", b"1,a", b"1;2", b"", b"1.5.5,2", b"1e,2", b"3:1", b"007,8"]
 CHANNEL_TEXTS = [b"@1", b"@1,2", b"@1!2", b"@1!2:3!4", b"@1:3", b"@1,2:4,5!6", b"@-1,+2", b"@1!2!3:4!5!6", b"@,1", b"@1,,2", b"@1:2!3", b"@1!2:3", b"@1:2:3", b"@1 2", b"@1,a", b"@'POTATO'", b"@'POTATO',1", b"@1,'a'", b'@"a,b",2',
                  b"@'slot'2", b"@'a'\"b\"", b"@'POTATO',,2", b"@'a';1", b"@'a' ,1", b"@'abc", b"@1!", b"@!1", b"@1!!2", b"@", b"1,2", b"@1-2", b"@1,2!3:4!5,'x'",
+                 # a sign stands once, in front of a number (seed C19-R: runs of signs)
+                 b"@1,--2", b"@+-1", b"@1!2,3!-+4,5", b"@1:-+2", b"@-+1:2", b"@1!+-2",
                  # path names with any ASCII content: a raw newline, control bytes, the list's own separators, the other quote
                  b"@1,'a\nb',2!3", b"@'\n',7", b"@'\t x;:,!@#()',1", b"@\"it's\",1", b"@'say \"hi\"'", b"@'\x01\x7f',2", b"@'a b'"]
 
